@@ -16,6 +16,7 @@ import (
 	"crypto/tls"
 	"crypto/x509"
 	"crypto/x509/pkix"
+	"encoding/base64"
 	"encoding/json"
 	"encoding/pem"
 	"fmt"
@@ -718,3 +719,5 @@ func vfAWSReq(account, role, pubPEM string) vfReq {
 		"presigned-url":    fmt.Sprintf("https://sts.us-east-1.amazonaws.com/?Action=GetCallerIdentity&Version=2011-06-15&X-Amz-Signature=%s.%s", account, role),
 	}}
 }
+
+func vfStdB64(b []byte) string { return base64.StdEncoding.EncodeToString(b) }
